@@ -3,8 +3,9 @@ import VerylModel.Lemmas.BitsTotal
 /-!
 C11 (a), theorem T1: panic-freedom of the arithmetic core in Rust's CHECKED semantics.
 `Impl.*` (Core/Bits.lean) returns `none` exactly where the debug-profile Rust panics; the theorems
-below say that inside the caller invariant it returns `some _`. The one place where it does not
-is kept as a negation witness (`unary_minus_width64_panics`, DESIGN §5 finding #20).
+below say that inside the caller invariant it returns `some _`. The one place where it did not
+(unary minus at width 64, DESIGN §5 finding #20) was repaired by /repo commit c18109e; the old arm
+is kept as `U64.negOld` with `old_unary_minus_width64_panics`.
 -/
 set_option linter.unusedSimpArgs false
 set_option linter.unusedVariables false
@@ -66,15 +67,14 @@ theorem value_ops_total (op : Op) (x y : Val) (w : Nat) (s : Bool) (h : binInv o
   case LogicOr => obtain ⟨v, h, _⟩ := C17_lor x y w s hx hy hop.1 hop.2 hw0; exact ⟨v, h⟩
   case As => exact ⟨x, rfl⟩
 
-/-- C11-T1 (unary operators): total inside the caller invariant, except unary minus in the U64
-    representation at width 64 on the operand 0 (`unary_minus_width64_panics`). -/
-theorem value_ops_total_unary (op : Op) (x : Val) (w : Nat) (s : Bool) (h : unInv op x w)
-    (hsub : op = .Sub → w ≠ 64 ∨ (ext x.v w s).payload ≠ 0 ∨ (ext x.v w s).mask ≠ 0) :
+/-- C11-T1 (unary operators): total inside the caller invariant (unary minus included since
+    /repo commit c18109e). -/
+theorem value_ops_total_unary (op : Op) (x : Val) (w : Nat) (s : Bool) (h : unInv op x w) :
     ∃ v, evalUnary op x w s = some v := by
   obtain ⟨hx, hw0, hop⟩ := h
   cases op <;> simp only at hop
   case Add => obtain ⟨v, h, _⟩ := C17_plus x w s hx hop hw0; exact ⟨v, h⟩
-  case Sub => obtain ⟨v, h, _⟩ := C17_neg_partial x w s hx hop hw0 (hsub rfl); exact ⟨v, h⟩
+  case Sub => obtain ⟨v, h, _⟩ := C17_neg x w s hx hop hw0; exact ⟨v, h⟩
   case BitNot => obtain ⟨v, h, _⟩ := C17_bnot x w s hx hop hw0; exact ⟨v, h⟩
   case BitAnd => obtain ⟨v, h, _⟩ := C17_rand x w s hx hop hw0; exact ⟨v, h⟩
   case BitNand => obtain ⟨v, h, _⟩ := C17_rnand x w s hx hop hw0; exact ⟨v, h⟩
@@ -92,17 +92,17 @@ theorem value_ops_total_unary (op : Op) (x : Val) (w : Nat) (s : Bool) (h : unIn
     · exact finishBit_total _ w (by decide) rfl hw0
     · split <;> exact finishBit_total _ w (by decide) rfl hw0
 
-/-- Negation witness (finding #20): `-x` with `x = 64'd0` in a 64-bit context reaches
-    `ret.payload += 1` with `payload = u64::MAX` — a panic in the debug profile. The invariant
-    holds, the model returns `none`. -/
-theorem unary_minus_width64_panics :
-    unInv .Sub (.u64 ⟨64, 0, 0, false⟩) 64 ∧ evalUnary .Sub (.u64 ⟨64, 0, 0, false⟩) 64 false = none := by
+/-- The repaired defect (finding #20, fixed by /repo commit c18109e), about the OLD arm
+    `U64.negOld` (`ret.payload += 1`): inside the invariant it reached the overflow panic. -/
+theorem old_unary_minus_width64_panics :
+    unInv .Sub (.u64 ⟨64, 0, 0, false⟩) 64 ∧ U64.negOld ⟨64, 0, 0, false⟩ 64 = none := by
   refine ⟨⟨⟨by decide, ?_⟩, by decide, by decide⟩, by decide⟩
   simp only [V4.wfIn]; decide
 
-/-- The same through a narrower operand: `-x` with `x = 63'd0` widened to a 64-bit context. -/
-theorem unary_minus_width64_panics_widened :
-    evalUnary .Sub (.u64 ⟨63, 0, 0, false⟩) 64 false = none := by decide
+/-- The current arm on the same inputs (also through a widened 63-bit operand): no panic, value 0. -/
+theorem unary_minus_width64_ok :
+    evalUnary .Sub (.u64 ⟨64, 0, 0, false⟩) 64 false = some (.u64 ⟨64, 0, 0, false⟩) ∧
+    evalUnary .Sub (.u64 ⟨63, 0, 0, false⟩) 64 false = some (.u64 ⟨64, 0, 0, false⟩) := by decide
 
 /-- `Value::{expand, trunc, select, concat, assign}` never panic on canonical values with sizes
     below `usize::MAX`. -/
